@@ -63,7 +63,7 @@ def gen_case(rng, tier, index):
         for op in case["ops"]:
             # outer axes of reducers/sorts run the non-local pipeline, whose recorded heap overflows (F10) kill the
             # uninstrumented worker without an attributable report: capped stream (every death there is re-run under ASan)
-            if op["op"] in ("reduce", "sort", "argsort") and op.get("axis") != -1 and rng.random() < 0.85:
+            if op["op"] in ("reduce", "sort", "argsort") and op.get("axis") != -1 and rng.random() < 0.97:
                 op["axis"] = -1
     return case
 
